@@ -76,6 +76,7 @@ func checkC03(p *Program, r *Report) {
 		r.Undecided("C03.R2", "model", "parser", err.Error())
 		return
 	}
+	c03NoTruncation(p, r, g)
 	// the expression nonterminal: X in the rule  _ -> X '+' X
 	plus := g.TokByName("'+'")
 	E := 0
@@ -452,11 +453,47 @@ func scannerTokens(p *Program) ([]scanTok, error) {
 		}
 		return "", false
 	}
+	// flat: nested plain blocks are part of the statement list they stand in
+	var flat func(body []ast.Stmt) []ast.Stmt
+	flat = func(body []ast.Stmt) []ast.Stmt {
+		var out []ast.Stmt
+		for _, st := range body {
+			if b, ok := st.(*ast.BlockStmt); ok {
+				out = append(out, flat(b.List)...)
+			} else {
+				out = append(out, st)
+			}
+		}
+		return out
+	}
+	// charTest: cond is `x == 'c'` / `'c' == x` (eq) or the != form (eq false), possibly parenthesised or negated
+	var charTest func(e ast.Expr) (ch string, eq bool, ok bool)
+	charTest = func(e ast.Expr) (string, bool, bool) {
+		switch x := e.(type) {
+		case *ast.ParenExpr:
+			return charTest(x.X)
+		case *ast.UnaryExpr:
+			if x.Op == token.NOT {
+				ch, eq, ok := charTest(x.X)
+				return ch, !eq, ok
+			}
+		case *ast.BinaryExpr:
+			if x.Op == token.EQL || x.Op == token.NEQ {
+				if ch, ok := charOf(x.Y); ok {
+					return ch, x.Op == token.EQL, true
+				}
+				if ch, ok := charOf(x.X); ok {
+					return ch, x.Op == token.EQL, true
+				}
+			}
+		}
+		return "", false, false
+	}
 	var visit func(body []ast.Stmt, seq string)
 	visit = func(body []ast.Stmt, seq string) {
 		tokName, lit := "", ""
 		var tpos token.Pos
-		for _, st := range body {
+		for _, st := range flat(body) {
 			switch x := st.(type) {
 			case *ast.AssignStmt:
 				if len(x.Lhs) == 1 && len(x.Rhs) == 1 {
@@ -497,16 +534,26 @@ func scannerTokens(p *Program) ([]scanTok, error) {
 				}
 			case *ast.IfStmt:
 				// `if s.peek() == '.' {...} else {...}` and the `= <-` lookahead
-				if be, ok := x.Cond.(*ast.BinaryExpr); ok && be.Op == token.EQL {
-					if ch, ok := charOf(be.Y); ok {
-						visit(x.Body.List, seq+ch)
-						if x.Else != nil {
-							if eb, ok := x.Else.(*ast.BlockStmt); ok {
-								visit(eb.List, seq+"\x00")
-							}
-						}
-						continue
+				if ch, eq, ok := charTest(x.Cond); ok {
+					var elseList []ast.Stmt
+					hasElse := false
+					if eb, ok := x.Else.(*ast.BlockStmt); ok {
+						elseList, hasElse = eb.List, true
+					} else if ei, ok := x.Else.(*ast.IfStmt); ok {
+						elseList, hasElse = []ast.Stmt{ei}, true
 					}
+					if eq {
+						visit(x.Body.List, seq+ch)
+						if hasElse {
+							visit(elseList, seq+"\x00")
+						}
+					} else {
+						visit(x.Body.List, seq+"\x00")
+						if hasElse {
+							visit(elseList, seq+ch)
+						}
+					}
+					continue
 				}
 				if be, ok := x.Cond.(*ast.BinaryExpr); ok && be.Op == token.LAND {
 					var chs string
@@ -1053,4 +1100,177 @@ func c03Escapes(p *Program, r *Report) {
 		}
 	}
 	r.Floor("C03.R6", n, 5)
+}
+
+// c03NoTruncation (R7): a grammar action that builds a node from single elements of a list symbol ($n[0], $n[1]) without the
+// list itself does so only where the list is known to have exactly those elements (`len($n) == k`). Otherwise the further
+// expressions written in the source are dropped from the tree without an error.
+func c03NoTruncation(p *Program, r *Report, g *LALR) {
+	type sym struct {
+		n int
+		f string
+	}
+	// dollarField: e is yyDollar[n].F
+	dollarField := func(e ast.Expr) (sym, bool) {
+		se, ok := e.(*ast.SelectorExpr)
+		if !ok {
+			return sym{}, false
+		}
+		ix, ok := se.X.(*ast.IndexExpr)
+		if !ok {
+			return sym{}, false
+		}
+		id, ok := ix.X.(*ast.Ident)
+		if !ok || id.Name != "yyDollar" {
+			return sym{}, false
+		}
+		bl, ok := ix.Index.(*ast.BasicLit)
+		if !ok {
+			return sym{}, false
+		}
+		n := 0
+		fmt.Sscanf(bl.Value, "%d", &n)
+		return sym{n, se.Sel.Name}, true
+	}
+	var rules []int
+	for rule := range g.Clauses {
+		rules = append(rules, rule)
+	}
+	sort.Ints(rules)
+	nLits := 0
+	for _, rule := range rules {
+		cc := g.Clauses[rule]
+		if cc == nil {
+			continue
+		}
+		// locals defined from an element of a list symbol: item, ok := yyDollar[3].exprs[0].(*ast.ItemExpr)
+		localElem := map[string][2]interface{}{}
+		ast.Inspect(cc, func(n ast.Node) bool {
+			as, ok := n.(*ast.AssignStmt)
+			if !ok || as.Tok != token.DEFINE || len(as.Rhs) != 1 {
+				return true
+			}
+			ast.Inspect(as.Rhs[0], func(m ast.Node) bool {
+				ix, ok := m.(*ast.IndexExpr)
+				if !ok {
+					return true
+				}
+				if s, ok := dollarField(ix.X); ok {
+					if bl, ok := ix.Index.(*ast.BasicLit); ok {
+						c := 0
+						fmt.Sscanf(bl.Value, "%d", &c)
+						if id, ok := as.Lhs[0].(*ast.Ident); ok {
+							localElem[id.Name] = [2]interface{}{s, c}
+						}
+					}
+				}
+				return true
+			})
+			return true
+		})
+		var visit func(list []ast.Stmt, conds []ast.Expr)
+		checkLit := func(cl *ast.CompositeLit, conds []ast.Expr) {
+			elem := map[sym]int{}  // list symbol -> highest constant index used
+			whole := map[sym]bool{} // list symbol used as a whole
+			var walk func(e ast.Node, underIndex bool)
+			walk = func(e ast.Node, underIndex bool) {
+				ast.Inspect(e, func(m ast.Node) bool {
+					switch x := m.(type) {
+					case *ast.IndexExpr:
+						if s, ok := dollarField(x.X); ok {
+							if bl, ok := x.Index.(*ast.BasicLit); ok {
+								c := 0
+								fmt.Sscanf(bl.Value, "%d", &c)
+								if c+1 > elem[s] {
+									elem[s] = c + 1
+								}
+								return false
+							}
+						}
+					case *ast.SelectorExpr:
+						if s, ok := dollarField(x); ok {
+							whole[s] = true
+							return false
+						}
+					case *ast.Ident:
+						if le, ok := localElem[x.Name]; ok {
+							s, c := le[0].(sym), le[1].(int)
+							if c+1 > elem[s] {
+								elem[s] = c + 1
+							}
+						}
+					}
+					return true
+				})
+			}
+			walk(cl, false)
+			for s, need := range elem {
+				if whole[s] {
+					continue
+				}
+				nLits++
+				ok := false
+				var conj func(e ast.Expr)
+				conj = func(e ast.Expr) {
+					switch x := e.(type) {
+					case *ast.ParenExpr:
+						conj(x.X)
+					case *ast.BinaryExpr:
+						if x.Op == token.LAND {
+							conj(x.X)
+							conj(x.Y)
+							return
+						}
+						if x.Op == token.EQL {
+							for _, pair := range [][2]ast.Expr{{x.X, x.Y}, {x.Y, x.X}} {
+								if c, isCall := pair[0].(*ast.CallExpr); isCall && len(c.Args) == 1 {
+									if id, isId := c.Fun.(*ast.Ident); isId && id.Name == "len" {
+										if s2, ok2 := dollarField(c.Args[0]); ok2 && s2 == s {
+											if bl, isLit := pair[1].(*ast.BasicLit); isLit && bl.Value == fmt.Sprint(need) {
+												ok = true
+											}
+										}
+									}
+								}
+							}
+						}
+					}
+				}
+				for _, c := range conds {
+					conj(c)
+				}
+				r.Check(ok, "C03.R7", fmt.Sprintf("rule %s|%s built from $%d[0..%d] only where the list has exactly %d element(s)", g.RuleString(rule), types.ExprString(cl.Type), s.n, need-1, need), p.Pos(cl.Pos()),
+					fmt.Sprintf("under len($%d) == %d", s.n, need),
+					fmt.Sprintf("the node is built from the first %d element(s) of $%d without a test that the list has no more: further expressions written in the source are dropped from the tree (`a, b = m[0], 5` parses as `a, b = m[0]`)", need, s.n))
+			}
+		}
+		visit = func(list []ast.Stmt, conds []ast.Expr) {
+			for _, st := range list {
+				switch x := st.(type) {
+				case *ast.BlockStmt:
+					visit(x.List, conds)
+				case *ast.IfStmt:
+					inner := append(append([]ast.Expr{}, conds...), x.Cond)
+					visit(x.Body.List, inner)
+					if x.Else != nil {
+						visit([]ast.Stmt{x.Else}, conds)
+					}
+				default:
+					ast.Inspect(st, func(m ast.Node) bool {
+						if cl, ok := m.(*ast.CompositeLit); ok {
+							if t := g.Info.TypeOf(cl); t != nil {
+								if pt, ok := t.(*types.Named); ok && pt.Obj().Pkg() != nil && pt.Obj().Pkg().Name() == "ast" {
+									checkLit(cl, conds)
+									return false
+								}
+							}
+						}
+						return true
+					})
+				}
+			}
+		}
+		visit(cc.Body, nil)
+	}
+	r.Floor("C03.R7", nLits, 2)
 }
